@@ -96,7 +96,14 @@ def make_payload(p: int, fid: int, big: bool = False, missing: str | None = None
     if extras:
         _register_extras()
         fieldsets = ['vf_extras_alt' if extras == 'alt' else 'vf_extras']
-    t = Trajectory(n, name=f'p{p}', fieldsets=fieldsets)
+    if fieldsets and _idr.get('late'):
+        # StoreGen.tla PayloadForms "late_fields": the trajectory is made with the base fields only, used as one (hashed, as
+        # any set or store does), and gets its second field set attached afterwards - the same trajectory in the end
+        t = Trajectory(n, name=f'p{p}')
+        hash(t)
+        t.add_fields(_aeic()[2].from_registry(fieldsets[0]))
+    else:
+        t = Trajectory(n, name=f'p{p}', fieldsets=fieldsets)
     for k, f in enumerate(POINT_FIELDS):
         setattr(t, f, p * 1000.0 + k * 10 + np.arange(n, dtype=float) / 8.0)
     if missing != 'starting_mass':
@@ -223,7 +230,14 @@ class StoreRunner:
                 try:
                     # (EntryForms: a session made through the constructor is left the way a `with` block leaves it)
                     if getattr(self, 'entry', 'factory') == 'constructor':
-                        ts.__exit__(None, None, None)
+                        # ... every second time the way a block is left that an exception of the CALLER's code ends
+                        # (Store.tla Close: a session ends; why it ends is not the store's business)
+                        self._nclose = getattr(self, '_nclose', 0) + 1
+                        if self._nclose % 2 == 0:
+                            boom = KeyError('an error in the code around the store')
+                            ts.__exit__(KeyError, boom, None)
+                        else:
+                            ts.__exit__(None, None, None)
                     else:
                         ts.close()
                 finally:
@@ -319,6 +333,7 @@ def run_behaviour(beh: dict, big=False, cache_mb=None, skip_bad=False, want=None
     _idr['zero'] = beh.get('idr') == 'zero_based'
     _idr['signed'] = 2 if beh.get('idr') == 'signed' else 0
     _idr['nan'] = beh.get('payload') == 'nan_scalar'
+    _idr['late'] = beh.get('payload') == 'late_fields'
     r = StoreRunner(big=big, cache_mb=cache_mb)
     r.entry = beh.get('entry', 'factory')
     universe_ids = sorted({it['id'] for it in beh['added'] if it['id']} | {1, 2, 3, 7})
